@@ -10,24 +10,36 @@ ESCAPE_ALPHABET = '"\\\'{}[]()/*#:+=,\t\v\b\f\a? ﻿\x00\n\r$%;.-_@!&|<>'
 LETTERS = 'abcXYZnrtv019'
 
 
+HOT = '"\\\ufeff{}[]\n\t/*\r\''
+HOT_STRINGS = ['\ufeff', '\\', '"', '\\"', '\ufeffa', 'a\ufeff', '\\n', '{', '}', '[x]', '//', '/*', '*/', '\n', '\r\n', "'",
+               '\\\\', '"\\', 'a"b', ' ', '']
+
+
 def text_alphabet(exclude: str = ''):
-    """Weighted: syntax characters, a few letters (both cases), then any Unicode scalar value."""
+    """Weighted: the hottest syntax characters, the wider syntax set, a few letters (both cases), then any
+    Unicode scalar value."""
     esc = ''.join(c for c in ESCAPE_ALPHABET if c not in exclude)
+    hot = ''.join(c for c in HOT if c not in exclude)
     return st.one_of(
-        st.sampled_from(esc),
+        st.sampled_from(hot),
         st.sampled_from(LETTERS),
         st.sampled_from(esc),
         st.characters(exclude_categories=['Cs'], exclude_characters=exclude),
     )
 
 
+def hot_strings(exclude: str = ''):
+    return st.sampled_from([s for s in HOT_STRINGS if not any(c in s for c in exclude)])
+
+
 def kv_name(max_size: int = 8):
     """KeyValues1 names: anything except line breaks."""
-    return st.text(text_alphabet(exclude='\r\n'), max_size=max_size)
+    return st.one_of(st.text(text_alphabet(exclude='\r\n'), max_size=max_size), hot_strings('\r\n'),
+                     st.text(text_alphabet(exclude='\r\n'), max_size=max_size))
 
 
 def kv_value(max_size: int = 10):
-    return st.text(text_alphabet(), max_size=max_size)
+    return st.one_of(st.text(text_alphabet(), max_size=max_size), hot_strings(), st.text(text_alphabet(), max_size=max_size))
 
 
 def ident(min_size: int = 1, max_size: int = 8):
